@@ -61,12 +61,13 @@ Example C18_witness_fixed :
   sequential_ok replay_mode (fst (replay_report_events 9999%Z 1%Z f10_witness)) = true.
 Proof. vm_compute. auto. Qed.
 
-(* non-vacuity of C18_stream_ok_finished: a finished report with a failed test, a skipped test, a setup and a nested suite *)
+(* non-vacuity of C18_stream_ok_finished: a finished report with a failed test, a skipped test, a setup holding an empty step
+   (which is why the live-run grammar, that forbids empty steps, rejects the replay) and a nested suite *)
 Definition finished_witness : report :=
   let mt n := mkMeta [n]%N [n]%N [] [] [] in
   let stp := mkStep [100]%N (Some 1003%Z) (Some 1005%Z) [LLog s_error [109]%N 1004%Z] in
   mkReport [82]%N [] (Some 1000%Z) (Some 2000%Z) None 2 None (Some (mkResult (Some 1900%Z) (Some 1901%Z) (Some s_passed) None []))
-    [SuiteResult (mt 115%N) (Some 1001%Z) (Some 1800%Z) (Some (mkResult (Some 1001%Z) (Some 1002%Z) (Some s_passed) None [])) None
+    [SuiteResult (mt 115%N) (Some 1001%Z) (Some 1800%Z) (Some (mkResult (Some 1001%Z) (Some 1002%Z) (Some s_passed) None [mkStep [101]%N (Some 1001%Z) (Some 1002%Z) []])) None
        [mkTest (mt 116%N) (mkResult (Some 1002%Z) (Some 1006%Z) (Some s_failed) None [stp]);
         mkTest (mt 117%N) (mkResult (Some 1007%Z) (Some 1007%Z) (Some s_skipped) (Some [120]%N) [])]
        [SuiteResult (mt 118%N) (Some 1100%Z) (Some 1200%Z) None None [mkTest (mt 116%N) (mkResult (Some 1101%Z) (Some 1102%Z) (Some s_passed) None [])] []]].
